@@ -22,11 +22,13 @@ theorem loadText_rejected_reg (reg : Registry) (name text : List UInt8)
   · exact absurd h' h
   · exact h'
 
+attribute [local irreducible] Goyang.Model.loadText
+
 theorem tryLoadSrc_text (reg : Registry) (name text : List UInt8) :
-    tryLoadSrc reg (.text name text) =
-      match loadText reg name text with
-      | (r, .accepted) => .ok r
-      | (_, res) => .error (.text res) := rfl
+    tryLoadSrc reg (.text name text) = ofLoadText (loadText reg name text) := rfl
+
+theorem tryLoadSrc_stmts (reg : Registry) (f : SrcFile) :
+    tryLoadSrc reg (.stmts f true) = tryLoad reg f := rfl
 
 theorem loadSrc_text (reg : Registry) (name text : List UInt8) :
     loadSrc reg (.text name text) = (loadText reg name text).1 := by
@@ -45,7 +47,8 @@ theorem loadSrc_text (reg : Registry) (name text : List UInt8) :
 theorem loadSrc_stmts (reg : Registry) (f : SrcFile) (h : ∃ r, tryLoad reg f = .ok r) :
     loadSrc reg (.stmts f true) = loadFile reg f := by
   obtain ⟨r, hr⟩ := h
-  simp only [loadSrc, tryLoadSrc, Bool.not_true, Bool.false_eq_true, if_false, hr, loadFile_of_ok reg r f hr]
+  unfold loadSrc
+  rw [tryLoadSrc_stmts, hr, loadFile_of_ok reg r f hr]
 
 /-! ### one step -/
 
